@@ -16,6 +16,9 @@ def load():
     if src not in sys.path:
         sys.path.insert(0, src)
     logging.disable(logging.CRITICAL)
+    # logging.warning() on a root logger without handlers calls basicConfig(), which would print to stderr
+    if not logging.getLogger().handlers:
+        logging.getLogger().addHandler(logging.NullHandler())
     m = type("Impl", (), {})()
     m.analyzer = importlib.import_module("safeds_stubgen.api_analyzer")
     m.api_mod = importlib.import_module("safeds_stubgen.api_analyzer._api")
